@@ -179,6 +179,9 @@ func TestCheck(t *testing.T) {
 		}
 		if env.Shard == 0 {
 			runSeq(env, rep, "C12", 4, 6, false)
+			// a reader of the declared secret after every event: server changes forwards and backwards, failures, polls, restarts
+			runSeqCfgs(env, rep, "C12", 5, 7, false, []seqCfg{{Name: "declared-secret-read-after-every-event", Expiry: 0, Declared: []string{"d"}, Names: []string{"d", "x"}, AutoRead: true,
+				Events: []string{"put:d", "back:d", "failnext:d", "put:x", "poll", "restart"}}})
 		}
 		runSched(t, env, rep, map[string]bool{"C12": true}, "sched-readers-vs-polls-lookups-expiry-close", all, 2, 3)
 	case "C15":
